@@ -94,7 +94,11 @@ func init() {
 		reusePriv.Key.Set(&priv.Key)
 		viaFn := secp.GenerateSharedSecret(reusePriv, &reusePeer)
 		viaMethod, err := reusePriv.ECDH(&reusePeer)
+		ownPub := reusePriv.PubKey() // the long-lived object's public key follows its current scalar
 		historyMu.Unlock()
+		if !ownPub.IsEqual(priv.PubKey()) {
+			return "PUBKEY-DEPENDS-ON-KEY-OBJECT-HISTORY"
+		}
 		again := secp.GenerateSharedSecret(priv, pub)
 		if err != nil || !bytes.Equal(fresh, viaFn) || !bytes.Equal(fresh, viaMethod) || !bytes.Equal(fresh, again) {
 			return "DEPENDS-ON-OBJECT-HISTORY fresh=" + hx(fresh) + " reused=" + hx(viaFn) + " method=" + hx(viaMethod)
